@@ -27,6 +27,9 @@ fn setup(ctx: &mut Ctx) {
     ctx.floor("faults-fired", 5000);
     ctx.floor("fault:error", 1000);
     ctx.floor("fault:eof", 1000);
+    ctx.floor("fault:interrupted", 1000);
+    ctx.floor("interrupt:during-query:retried-with-right-answer", 200);
+    ctx.floor("interrupt:during-query:err", 50);
     ctx.floor("fault:transient", 1000);
     ctx.floor("fault:permanent", 1000);
     ctx.floor("fault:on-seek", 500);
@@ -49,6 +52,8 @@ struct Run {
     open_ok: bool,
     answers: Vec<Obs>,
     fired: Vec<(u32, u32)>,
+    /// `Interrupted` faults: the caller may retry those, so the call may also succeed (with the right answer)
+    fired_soft: Vec<(u32, u32)>,
     io_calls: u32,
     /// I/O call index at which each API call started (api tag -> first io call)
     kinds: Vec<bool>, // per I/O call: true = read
@@ -65,7 +70,7 @@ fn replay(data: &Rc<Vec<u8>>, hist: &[Query], faults: Vec<Fault>, max_chunk: usi
         }
     }
     let kinds = handle.events().iter().map(|e| e.kind == crate::monitor::io::IoKind::Read).collect();
-    Run { open_ok, answers, fired: handle.fired(), io_calls: handle.calls(), kinds }
+    Run { open_ok, answers, fired: handle.fired(), fired_soft: handle.fired_soft(), io_calls: handle.calls(), kinds }
 }
 
 fn judge(ctx: &mut Ctx, what: &str, hist: &[Query], clean: &Run, faulty: &Run, desc: &str) -> bool {
@@ -78,6 +83,14 @@ fn judge(ctx: &mut Ctx, what: &str, hist: &[Query], clean: &Run, faulty: &Run, d
             return false;
         }
         return true;
+    }
+    let soft_open = faulty.fired_soft.iter().any(|(_, api)| *api == 0);
+    if !faulty.open_ok && soft_open {
+        ctx.count("interrupt:during-open:err");
+        return true;
+    }
+    if soft_open {
+        ctx.count("interrupt:during-open:retried");
     }
     if !faulty.open_ok {
         // no fault fired during open, yet it failed although the fault-free open succeeds
@@ -100,6 +113,21 @@ fn judge(ctx: &mut Ctx, what: &str, hist: &[Query], clean: &Run, faulty: &Run, d
                 return false;
             }
             faulted_queries.push(q);
+        } else if faulty.fired_soft.iter().any(|(_, a)| *a == api) {
+            // an Interrupted read/seek: failing is fine, carrying on is fine, a different answer is not
+            match got {
+                Err(_) => ctx.count("interrupt:during-query:err"),
+                Ok(g) => {
+                    if Some(g) != want.as_ref().ok() {
+                        ctx.violation(
+                            &format!("{}:fabricated-after-interrupt", q.label()),
+                            format!("{what}: {desc}: an Interrupted error was delivered during call #{i} {:?}, which returned {} but the fault-free answer is {}", q, short(got), short(want)),
+                        );
+                        return false;
+                    }
+                    ctx.count("interrupt:during-query:retried-with-right-answer");
+                }
+            }
         } else {
             match got {
                 Err(_) => ctx.count("post-fault:err"),
@@ -209,14 +237,17 @@ fn run(ctx: &mut Ctx, si: usize, _case: u64) {
                 (0..300).map(|_| ctx.rng.below(n as u64) as u32).collect()
             };
             for k in indices {
-                for kind in [FaultKind::Error, FaultKind::Eof] {
+                for kind in [FaultKind::Error, FaultKind::Eof, FaultKind::Interrupted] {
                     for permanent in [false, true] {
+                        if kind == FaultKind::Interrupted && permanent {
+                            continue;
+                        }
                         let f = Fault { at_call: k, kind, permanent };
                         ctx.count("faults-injected");
-                        ctx.count(if kind == FaultKind::Error { "fault:error" } else { "fault:eof" });
+                        ctx.count(match kind { FaultKind::Error => "fault:error", FaultKind::Eof => "fault:eof", FaultKind::Interrupted => "fault:interrupted" });
                         ctx.count(if permanent { "fault:permanent" } else { "fault:transient" });
                         let faulty = replay(&data, &hist, vec![f], chunk);
-                        if faulty.fired.is_empty() {
+                        if faulty.fired.is_empty() && faulty.fired_soft.is_empty() {
                             all_fired = false;
                             ctx.count("faults-not-reached");
                             continue;
@@ -242,14 +273,14 @@ fn run(ctx: &mut Ctx, si: usize, _case: u64) {
             for _ in 0..6 {
                 let nf = 2 + ctx.rng.usize_below(4);
                 let faults: Vec<Fault> = (0..nf)
-                    .map(|_| Fault { at_call: ctx.rng.below(n as u64 + 2) as u32, kind: if ctx.rng.bool() { FaultKind::Error } else { FaultKind::Eof }, permanent: ctx.rng.chance(1, 8) })
+                    .map(|_| Fault { at_call: ctx.rng.below(n as u64 + 2) as u32, kind: [FaultKind::Error, FaultKind::Eof, FaultKind::Error, FaultKind::Eof, FaultKind::Interrupted][ctx.rng.usize_below(5)], permanent: ctx.rng.chance(1, 8) })
                     .collect();
                 ctx.count("multi-fault-schedules");
                 ctx.count_n("faults-injected", nf as u64);
                 let desc = format!("schedule {:?}", faults);
                 let faulty = replay(&data, &hist, faults, chunk);
-                ctx.count_n("faults-fired", faulty.fired.len() as u64);
-                if faulty.fired.is_empty() {
+                ctx.count_n("faults-fired", (faulty.fired.len() + faulty.fired_soft.len()) as u64);
+                if faulty.fired.is_empty() && faulty.fired_soft.is_empty() {
                     continue;
                 }
                 if !judge(ctx, &what, &hist, &clean, &faulty, &desc) {
